@@ -133,16 +133,23 @@ def parseOp (w : String) : Option Op :=
   | some "out" => do pure (.out (← n 1))
   | _ => none
 
+def parseXOp (w : String) : Option XOp :=
+  let a := w.splitOn ","
+  let n := fun (i : Nat) => (a[i]?).bind String.toNat?
+  match a.head? with
+  | some "rstore" => do pure (.rstore (← n 1) (← n 2) (← n 3))
+  | _ => (parseOp w).map XOp.base
+
 /-- Run the ops one by one, printing each call's token with the error record as it stands after the call. -/
 def runWords (ws : List String) : String :=
   let rec go (s : State) (ws : List String) (acc : List String) : List String :=
     match ws with
     | [] => acc.reverse
     | w :: rest =>
-      match parseOp w with
+      match parseXOp w with
       | none => (("badop:" ++ w) :: acc).reverse
       | some op =>
-        let (s1, o) := step s op
+        let (s1, o) := stepX s op
         go s1 rest (outTok o s1.err :: acc)
   "model=" ++ " ".intercalate (go State.init ws [])
 
